@@ -119,33 +119,7 @@ func runC17(c *Ctx) {
 		c.Unknown("R17.3", "anchor-unresolved: lookup key literals", 0, fmt.Sprintf("found %d key literals, expected >= 6", nKeys))
 	}
 
-	if f := p.Method(pkgDep, "Database", "GetDependentControllers"); c.NeedFunc("R17.3", f, dbT+".GetDependentControllers") {
-		ok := true
-		d := ""
-		n := 0
-
-		for _, in := range Find(f, ReturnsNilConst(1)) {
-			n++
-			d = p.DescN(in.(*ssa.Return).Results[0], 5)
-			call, _ := CallOf(in.(*ssa.Return).Results[0])
-			okThis := call != nil && p.CalleeName(call) == "slices.Concat"
-
-			if okThis {
-				elems, lit := VarargElems(CallArgs(call)[0])
-				okThis = lit && len(elems) == 2 && Glob("lookup(*param#0.inputLookup,*", p.Desc(elems[0])+p.Desc(elems[1])) && strings.Contains(p.Desc(elems[0])+p.Desc(elems[1]), "inputLookupID")
-			}
-
-			if !okThis {
-				ok = false
-
-				break
-			}
-		}
-
-		ok = ok && n >= 1
-
-		c.Check(ok, "R17.3", FuncName(f)+" :: returns a fresh slices.Concat(kind-wide lookup, per-ID lookup)", fpos(f), short(d, 120), "returns "+d+" — an internal slice would be mutated under the delivery loop")
-	}
+	dependentsFresh(c, "R17.3")
 
 	for _, name := range []string{"GetControllerInputs"} {
 		if f := p.Method(pkgDep, "Database", name); c.NeedFunc("R17.3", f, dbT+"."+name) {
@@ -366,4 +340,39 @@ func runC17(c *Ctx) {
 // StaticOrClosureCalleeOf resolves the function a defer/go/call instruction invokes.
 func StaticOrClosureCalleeOf(c ssa.CallInstruction) *ssa.Function {
 	return StaticOrClosureCallee(c)
+}
+
+// dependentsFresh: GetDependentControllers returns a fresh concatenation of the kind-wide and the per-ID lookup on every
+// success path (the delivery loop walks the result after the database lock is released).
+func dependentsFresh(c *Ctx, rule string) {
+	p := c.P
+
+	if f := p.Method(pkgDep, "Database", "GetDependentControllers"); c.NeedFunc(rule, f, dbT+".GetDependentControllers") {
+		ok := true
+		d := ""
+		n := 0
+
+		for _, in := range Find(f, ReturnsNilConst(1)) {
+			n++
+			d = p.DescN(in.(*ssa.Return).Results[0], 5)
+			call, _ := CallOf(in.(*ssa.Return).Results[0])
+			okThis := call != nil && p.CalleeName(call) == "slices.Concat"
+
+			if okThis {
+				elems, lit := VarargElems(CallArgs(call)[0])
+				okThis = lit && len(elems) == 2 && Glob("lookup(*param#0.inputLookup,*", p.Desc(elems[0])+p.Desc(elems[1])) && strings.Contains(p.Desc(elems[0])+p.Desc(elems[1]), "inputLookupID")
+			}
+
+			if !okThis {
+				ok = false
+
+				break
+			}
+		}
+
+		ok = ok && n >= 1
+
+		c.Check(ok, rule, FuncName(f)+" :: returns a fresh slices.Concat(kind-wide lookup, per-ID lookup)", fpos(f), short(d, 120), "returns "+d+" — an internal slice would be mutated under the delivery loop")
+	}
+
 }
